@@ -9,7 +9,7 @@ type c16Hasher struct{}
 
 func (c16Hasher) HashBytes(b []byte) string { return "H(" + string(b) + ")" }
 
-var c16All = []string{"name", "id", "user"}
+var c16All = []string{"id", "idx", "name"} // "id" is a proper prefix of "idx"
 var c16Names = c16All[:2]
 
 type c16Gen struct {
